@@ -153,11 +153,11 @@ Definition get_group (name : bstr) : Mst group :=
   s <- getS ;; lift (group_named (groups s) name).
 Definition get_param (gname pname : bstr) : Mst param :=
   g <- get_group gname ;; lift (param_named g pname).
-(* parameters().group(g).parameter(p).valuesAsInt()[0] *)
+(* parameters().group(g).parameter(p).valuesAsInt().at(0); site only documents the call site *)
 Definition int0 (site : nat) (gname pname : bstr) : Mst Z :=
-  p <- get_param gname pname ;; v <- lift (values_as_int p) ;; lift (idx_ site v 0).
+  p <- get_param gname pname ;; v <- lift (values_as_int p) ;; lift (at_ v 0).
 Definition float0 (site : nat) (gname pname : bstr) : Mst f32 :=
-  p <- get_param gname pname ;; v <- lift (values_as_float p) ;; lift (idx_ site v 0).
+  p <- get_param gname pname ;; v <- lift (values_as_float p) ;; lift (at_ v 0).
 Definition strs_of (gname pname : bstr) : Mst (list bstr) :=
   p <- get_param gname pname ;; lift (values_as_string p).
 
